@@ -42,7 +42,8 @@ PROPS = {
         'k_groups': [{'module': 'msl/pipeline.rs',
                       'harnesses': [('c05_msl_finish_keeps_bind_groups_positional_bounded', 'bounded:3 argument buffers of 0..2 entries')],
                       'kani_args': ['--no-assertion-reach-checks'],
-                      'tier': 'quick'}],
+                      # 5 to 12 min depending on the run: thorough tier only (a quick check should not depend on one slow SAT call)
+                      'tier': 'thorough'}],
         'design_ref': 'DESIGN.md Part I, I.4 (C05)',
     },
     'C06': {
